@@ -1,7 +1,7 @@
 SPECIFICATION Spec
 CONSTANTS
-  FileSet <- FilesW
-  QuerySeq <- QueriesW
+  CaseSet <- CasesW
+  QueriesOf <- QOf
   StarFix = FALSE
   SubjectFix = TRUE
   CAListsPlain = TRUE
